@@ -71,8 +71,8 @@ WSRT = excsan.watched(paramiko.ServiceRequestingTransport)
 HOSTKEY_ALGS = ("ssh-ed25519", "ecdsa-sha2-nistp256", "rsa-sha2-512", "ssh-rsa", "ecdsa-sha2-nistp384",
                 "rsa-sha2-256", "ecdsa-sha2-nistp521")
 # mutation operators that every quick run executes for every field of every template (the rest is sampled)
-CORE_OPS = ("valid", "badutf8.0", "type-only")
-CORE_OPS_KEX = ("valid", "badutf8.0", "cut", "empty", "type-only")
+CORE_OPS = ("valid", "badutf8.0", "type-only", "cut", "cut-in-data")
+CORE_OPS_KEX = ("valid", "badutf8.0", "cut", "cut-in-data", "empty", "type-only")
 
 
 def op_of(label):
@@ -129,6 +129,27 @@ def join_victim(ctx, v, what, timeout=30):
         ctx.inconclusive("victim transport thread still running %ds after the link was closed (%s)" % (timeout, what))
         return False
     return True
+
+
+class Budget:
+    """Soft wall-clock shares per stage (never a verdict: an exhausted share only
+    skips the rest of that stage's sampled cases, which is counted; the minimum
+    observation counts still have to be met). Unused time rolls over."""
+
+    def __init__(self, ctx, total):
+        self.ctx, self.total = ctx, total
+        self.end = time.time()
+        self.stage = None
+
+    def start(self, stage, share):
+        self.stage = stage
+        self.end = max(self.end, time.time()) + share * self.total
+
+    def over(self):
+        if time.time() > self.end:
+            self.ctx.count("cases_skipped_time_share." + self.stage)
+            return True
+        return False
 
 
 # ---------------------------------------------------------------------------
@@ -276,8 +297,8 @@ def clamp_counts(payload, victim_role):
 
 
 class RawStage:
-    def __init__(self, ctx, judge):
-        self.ctx, self.judge = ctx, judge
+    def __init__(self, ctx, judge, budget):
+        self.ctx, self.judge, self.budget = ctx, judge, budget
         self.rng = ctx.rng
         self.n = 0
 
@@ -368,9 +389,9 @@ class RawStage:
             idx[0] += 1
             if not ctx.mine(i):
                 return False
-            if quick and not core and rng.random() > frac:
+            if not core and rng.random() > (frac if quick else max(frac, 0.6)):
                 return False
-            return True
+            return not self.budget.over()
 
         banner = [rawpeer.BANNER + b"\r\n"]
         # 1. banners -------------------------------------------------------
@@ -774,8 +795,8 @@ def family(tname):
 class PostStage:
     PROBES_PER_SESSION = 4
 
-    def __init__(self, ctx, judge):
-        self.ctx, self.judge, self.rng = ctx, judge, ctx.rng
+    def __init__(self, ctx, judge, budget):
+        self.ctx, self.judge, self.rng, self.budget = ctx, judge, ctx.rng, budget
         self.idx = 0
         self.setup_failures = 0
 
@@ -784,9 +805,9 @@ class PostStage:
         self.idx += 1
         if not self.ctx.mine(i):
             return False
-        if self.ctx.quick and not core and self.rng.random() > frac:
+        if not core and self.rng.random() > (frac if self.ctx.quick else max(frac, 0.6)):
             return False
-        return True
+        return not self.budget.over()
 
     def new_sess(self, *a, **kw):
         for attempt in range(2):
@@ -1261,6 +1282,21 @@ class PostStage:
         try:
             probe_env = dict(pk_alg="ssh-ed25519", pk_blob=b"k", pk_sig=b"s")
             req = [t for t in g.t_userauth_requests(probe_env) if t.name.endswith("gssapi-with-mic")][0]
+            # the two gss methods of USERAUTH_REQUEST on a server that enabled gss authentication
+            for tm in [t for t in g.t_userauth_requests(probe_env) if "gssapi" in t.name]:
+                for label, pl in g.mutants(tm, rng):
+                    if not self.mine(core=op_of(label) in ("valid", "badutf8.0", "cut"), frac=0.15):
+                        continue
+                    desc = ("gss-stub", "S", label)
+                    sess = self.new_sess("S", False, False, gss=True)
+                    if sess is None:
+                        ctx.case(desc, nontrivial=False)
+                        continue
+                    ctx.count("inj.gss-stub.S." + family(tm.name))
+                    ctx.case(desc)
+                    if sess.send("service-request/valid", g.payload(g.t_service("request")[0])):
+                        sess.send(label, pl)
+                    sess.finish(self.judge, desc, "gss-stub")
             follow = [t for t in g.t_userauth_server_side_extra() if "gssapi" in t.name]
             for tm in follow:
                 for label, pl in g.mutants(tm, rng):
@@ -1284,13 +1320,16 @@ class PostStage:
 
 def run(ctx):
     judge = Judge(ctx)
+    budget = Budget(ctx, ctx.pick(170.0, 1000.0))
     t_raw = time.time()
-    RawStage(ctx, judge).run()
+    budget.start("raw", 0.28)
+    RawStage(ctx, judge, budget).run()
     ctx.count("wall_ms.raw", int((time.time() - t_raw) * 1000))
-    post = PostStage(ctx, judge)
-    for name in ("run_passive", "run_client_auth", "run_client_conn", "run_bitflips", "run_evil_framing",
-                 "run_rekey", "run_gss"):
+    post = PostStage(ctx, judge, budget)
+    for name, share in (("run_bitflips", 0.05), ("run_evil_framing", 0.05), ("run_gss", 0.04), ("run_passive", 0.30),
+                        ("run_client_auth", 0.12), ("run_client_conn", 0.08), ("run_rekey", 0.08)):
         t0 = time.time()
+        budget.start(name, share)
         getattr(post, name)()
         ctx.count("wall_ms." + name, int((time.time() - t0) * 1000))
     ctx.count("distinct_internal_signatures_this_shard", len(judge.sigs))
